@@ -1,7 +1,11 @@
 // C07 correspondence harness: drives the real TCPIP::StreamFollower with real IP/IPv6 + TCP [+ RawPDU] packets.
-//   case attach=<0|1> maxc=<n> maxb=<n> ka=<microseconds> acl=<0|1> ooo=<0|1>
+//   case attach=<0|1> maxc=<n> maxb=<n> ka=<microseconds> acl=<0|1> ooo=<0|1> [ack=<0..3>] [usesack=<0|1>] [ign=<0..3>] [maxs=<n>] [nocb=1] [rec=<window>]
+//        ack: Flow::enable_ack_tracking in the new-stream callback (bit 0 client flow, bit 1 server flow);
+//        usesack: AckTracker::use_sack on both flows' trackers there; ign: ignore_client_data (bit 0) / ignore_server_data
+//        (bit 1) there; rec: Stream::enable_recovery_mode(window) there, after the callbacks have been installed; nocb: no new-stream callback is installed at all (callback_not_set path); maxs: what the check read for DEFAULT_MAX_SACKED_INTERVALS (answered with the compiled value)
 //   decl <v4|v6> <src> <sport> <dst> <dport> <isn> <hex>          (oracle only: the byte stream src->dst)
-//   pkt <ts> <v4|v6> <src> <sport> <dst> <dport> <flags> <seq> <ack> <none|-|hex> [mss=<n>] [sack]
+//   pkt <ts> <v4|v6> <src> <sport> <dst> <dport> <flags> <seq> <ack> <none|-|hex> [mss=<n>] [sack] [sk=<-|edge,edge,..>] [skraw=<hex>]
+//        sk: a SACK option built with TCP::sack (decimal 32-bit edges; `-` = no edges); skraw: a SACK option with arbitrary data
 //   find <v4|v6> <a> <aport> <b> <bport>
 // Addresses are hex (8 digits IPv4, 32 digits IPv6).  Output of `pkt`: `<events ;-separated or -> | <status>` where the
 // status is that of the stream found under the packet's own 4-tuple after the packet (or `none`).
@@ -13,6 +17,8 @@
 #include <tins/tcp.h>
 #include <tins/rawpdu.h>
 #include <tins/packet.h>
+#include <tins/config.h>
+#include <tins/tcp_ip/ack_tracker.h>
 #include <chrono>
 #include <map>
 #include <memory>
@@ -23,7 +29,9 @@ using Tins::TCPIP::Flow;
 using Tins::TCPIP::StreamFollower;
 
 static std::vector<std::string> events;
-static bool cfg_acl = true, cfg_ooo = false;
+static bool cfg_acl = true, cfg_ooo = false, cfg_usesack = false;
+static int cfg_ack = 0, cfg_ign = 0;
+static long long cfg_rec = -1;
 
 static std::string kv(const std::vector<std::string>& w, const std::string& key, const std::string& dflt) {
     for (auto& s : w) if (s.compare(0, key.size() + 1, key + "=") == 0) return s.substr(key.size() + 1);
@@ -75,6 +83,21 @@ static size_t real_bytes(const Flow& f) {
 static size_t chunks_of(const Stream& s) { return s.client_flow().buffered_payload().size() + s.server_flow().buffered_payload().size(); }
 static uint32_t bytes_of(const Stream& s) { return s.client_flow().total_buffered_bytes() + s.server_flow().total_buffered_bytes(); }
 
+static std::string ivs_of(const Flow& f) {
+    std::ostringstream o;
+    bool first = true;
+    for (auto& iv : f.ack_tracker().acked_intervals()) {
+        if (!first) o << ",";
+        first = false;
+        o << boost::icl::first(iv) << "-" << boost::icl::last(iv);
+    }
+    return first ? "-" : o.str();
+}
+static uint32_t sacked_of(const Stream& s) {
+    return uint32_t(s.client_flow().ack_tracker().acked_intervals().iterative_size()) +
+           uint32_t(s.server_flow().ack_tracker().acked_intervals().iterative_size());
+}
+
 static std::string status(const Stream& s) {
     const Flow& c = s.client_flow(); const Flow& v = s.server_flow();
     std::ostringstream o;
@@ -85,7 +108,11 @@ static std::string status(const Stream& s) {
       << " real=" << (real_bytes(c) + real_bytes(v))
       << " cpl=" << c.payload().size() << " spl=" << v.payload().size()
       << " cmss=" << c.mss() << " smss=" << v.mss() << " csack=" << c.sack_permitted() << " ssack=" << v.sack_permitted()
-      << " created=" << s.create_time().count() << " seen=" << s.last_seen().count();
+      << " created=" << s.create_time().count() << " seen=" << s.last_seen().count()
+      << " ctrk=" << c.ack_tracking_enabled() << " strk=" << v.ack_tracking_enabled()
+      << " cak=" << c.ack_tracker().ack_number() << " sak=" << v.ack_tracker().ack_number()
+      << " civn=" << c.ack_tracker().acked_intervals().iterative_size() << " sivn=" << v.ack_tracker().acked_intervals().iterative_size()
+      << " civ=" << ivs_of(c) << " siv=" << ivs_of(v) << " rec=" << s.is_recovery_mode_enabled();
     return o.str();
 }
 
@@ -110,24 +137,34 @@ static void install(Stream& s) {
         });
     }
     if (!cfg_acl) s.auto_cleanup_payloads(false);
+    if (cfg_ack & 1) s.client_flow().enable_ack_tracking();
+    if (cfg_ack & 2) s.server_flow().enable_ack_tracking();
+    if (cfg_usesack) { s.client_flow().ack_tracker().use_sack(); s.server_flow().ack_tracker().use_sack(); }
+    if (cfg_ign & 1) s.ignore_client_data();
+    if (cfg_ign & 2) s.ignore_server_data();
+    if (cfg_rec >= 0) s.enable_recovery_mode(uint32_t(cfg_rec));
 }
 
 static std::unique_ptr<StreamFollower> make_follower(const std::vector<std::string>& w) {
     std::unique_ptr<StreamFollower> f(new StreamFollower());
     cfg_acl = kv(w, "acl", "1") == "1";
     cfg_ooo = kv(w, "ooo", "0") == "1";
+    cfg_ack = std::stoi(kv(w, "ack", "0"));
+    cfg_ign = std::stoi(kv(w, "ign", "0"));
+    cfg_usesack = kv(w, "usesack", "0") == "1";
+    cfg_rec = std::stoll(kv(w, "rec", "-1"));
     f->follow_partial_streams(kv(w, "attach", "0") == "1");
     f->max_buffered_chunks_ = size_t(std::stoull(kv(w, "maxc", "512")));
     f->max_buffered_bytes_ = uint32_t(std::stoull(kv(w, "maxb", "3145728")));
     f->stream_keep_alive(std::chrono::microseconds(std::stoll(kv(w, "ka", "300000000"))));
-    f->new_stream_callback([](Stream& s) {
+    if (kv(w, "nocb", "0") != "1") f->new_stream_callback([](Stream& s) {
         std::ostringstream o; o << "new " << sid(s) << " partial=" << s.is_partial_stream();
         events.push_back(o.str());
         install(s);
     });
     f->stream_termination_callback([](Stream& s, StreamFollower::TerminationReason r) {
         const char* n = r == StreamFollower::TIMEOUT ? "TIMEOUT" : r == StreamFollower::BUFFERED_DATA ? "BUFFERED_DATA" : "SACKED_SEGMENTS";
-        std::ostringstream o; o << "term " << sid(s) << " " << n << " chunks=" << chunks_of(s) << " bytes=" << bytes_of(s);
+        std::ostringstream o; o << "term " << sid(s) << " " << n << " chunks=" << chunks_of(s) << " bytes=" << bytes_of(s) << " sacked=" << sacked_of(s);
         events.push_back(o.str());
     });
     return f;
@@ -151,7 +188,7 @@ int main() {
         if (w[0] == "case") {
             fol = make_follower(w);
             events.clear();
-            return "case";
+            return "case maxs=" + std::to_string(StreamFollower::DEFAULT_MAX_SACKED_INTERVALS);
         }
         if (w[0] == "decl") return "decl";
         if (w[0] == "find" && w.size() >= 6) {
@@ -173,6 +210,22 @@ int main() {
             for (size_t i = 11; i < w.size(); ++i) {
                 if (w[i].compare(0, 4, "mss=") == 0) tcp->mss(uint16_t(std::stoul(w[i].substr(4))));
                 else if (w[i] == "sack") tcp->sack_permitted();
+                else if (w[i].compare(0, 3, "sk=") == 0) {
+                    TCP::sack_type edges;
+                    std::string list = w[i].substr(3);
+                    if (list != "-") {
+                        std::istringstream in(list);
+                        std::string item;
+                        while (std::getline(in, item, ',')) edges.push_back(uint32_t(std::stoull(item)));
+                    }
+                    if (edges.size() > 60) return "bad-op";      // TCP::sack truncates the size to uint8_t
+                    tcp->sack(edges);
+                }
+                else if (w[i].compare(0, 6, "skraw=") == 0) {
+                    bytes d;
+                    if (!parse_hex(w[i].substr(6), d) || d.size() > 255) return "bad-op";
+                    tcp->add_option(TCP::option(TCP::SACK, d.size(), d.data()));
+                }
             }
             if (w[10] != "none") {
                 bytes d;
@@ -180,7 +233,13 @@ int main() {
                 tcp->inner_pdu(new RawPDU(d.empty() ? &dummy : d.data(), uint32_t(d.size())));
             }
             events.clear();
-            fol->process_packet(pkt);
+            try {
+                fol->process_packet(pkt);
+            } catch (const callback_not_set&) {
+                events.push_back("exc callback_not_set");
+            } catch (const std::exception& e) {
+                events.push_back("exc " + exc_name(e));
+            }
             std::string ev;
             for (auto& e : events) { if (!ev.empty()) ev += ";"; ev += e; }
             if (ev.empty()) ev = "-";
